@@ -199,12 +199,12 @@ def generated(rng, r, D, cap=300):
 
 def carries(v, w, tol=0.1 + 1e-9):
     if isinstance(v, list):
-        return isinstance(w, list) and len(v) == len(w) and all(carries(a, b) for a, b in zip(v, w))
+        return isinstance(w, list) and len(v) == len(w) and all(carries(a, b, tol) for a, b in zip(v, w))
     if isinstance(v, dict):
         if not isinstance(w, dict):
             return False
         for k in v:
-            if k not in w or not carries(v[k], w[k]):
+            if k not in w or not carries(v[k], w[k], tol):
                 return False
         return True
     if isinstance(v, float) and v != v:
